@@ -26,7 +26,7 @@ func runC04(r *Run) {
 	r.Alias("$b", "recv.block")
 	r.Alias("$send", "recv.momentumStore.GetAccountBlockByHash($b.FromBlockHash)")
 	r.Alias("$front", "recv.accountStore.SequencerFront(recv.momentumStore.GetAccountMailbox($b.Address))")
-	r.Alias("$blk", "append(new([1]*nom.AccountBlock)[:],recv.GetAccountBlock(a0)#0.DescendantBlocks)[(iter+1)]")
+	r.Alias("$blk", "append(list(recv.GetAccountBlock(a0)#0),recv.GetAccountBlock(a0)#0.DescendantBlocks)[(iter+1)]")
 	r.Alias("$ctx", "eq(nil,recv.DB.Subset(momentum.getAccountStorePrefix(a0.Address)).Apply(a1)) & ne(0,len(a1.Dump()))")
 	r.Alias("$lctx", "$ctx & eq(nil,recv.setBlockConfirmationHeight($blk.Hash,(recv.Identifier().Height+1)))")
 
@@ -46,7 +46,7 @@ func runC04(r *Run) {
 	r.Has("chain/account.(*accountStore).IsReceived", "recv.DB.Get(account.receivedBlockKey(a0))", "marker reader uses the same key constructor")
 	r.Has("chain/account.(*accountStore).IsReceived", "return false", "absent marker ⇒ not received")
 	r.Has("chain/account.(*accountStore).IsReceived", "return true", "present marker ⇒ received")
-	r.Has("chain/account.receivedBlockKey", "common.JoinBytes(new([2][]byte)[:])", "key = prefix ‖ hash")
+	r.Has("chain/account.receivedBlockKey", "common.JoinBytes(list(account.receivedBlockPrefix,a0.Bytes()))", "key = prefix ‖ hash")
 	r.WhoMayCall("received-marker writer", []string{"iface:chain/store:Account.MarkAsReceived"}, []string{"vm.(*VM).applyReceive"},
 		"only the execution of a user receive may mark a send as received")
 
@@ -79,7 +79,7 @@ func runC04(r *Run) {
 	r.Has(add, "recv.getAccountMailbox(recv.GetAccountBlockByHash($blk.FromBlockHash)#0.Address).MarkBlockThatReceives($blk.FromBlockHash,$blk.Header())", "the receiving block is recorded against the send")
 	r.Has(add, "recv.setBlockConfirmationHeight($blk.Hash,(recv.Identifier().Height+1))", "confirmation height = this momentum")
 	r.Has(add, "store new([1]*nom.AccountBlock)[0] = recv.GetAccountBlock(a0)#0", "the batch starts with the block itself")
-	r.Has(add, "append(new([1]*nom.AccountBlock)[:],recv.GetAccountBlock(a0)#0.DescendantBlocks)", "descendants are processed after their parent, in order")
+	r.Has(add, "append(list(recv.GetAccountBlock(a0)#0),recv.GetAccountBlock(a0)#0.DescendantBlocks)", "descendants are processed after their parent, in order")
 	r.WhoMayCall("mailbox mutators",
 		[]string{"iface:chain/store:AccountMailbox.MarkAsUnreceived", "iface:chain/store:AccountMailbox.MarkAsReceived", "iface:chain/store:AccountMailbox.MarkBlockThatReceives", "iface:chain/store:AccountMailbox.SequencerPushBack"},
 		[]string{add}, "mailboxes change only when a momentum confirms blocks")
